@@ -6,6 +6,8 @@ package cli
 
 import (
 	"fmt"
+	"os"
+	"path/filepath"
 	"regexp"
 	"strconv"
 	"strings"
@@ -180,6 +182,26 @@ func Do(w *work.WS, bin string, env []string, cwd string, outAbs string, args ..
 	}
 	r.Rep = Parse(r.Res.Stdout)
 	return r
+}
+
+// EarlierConfig is a small valid configuration; DoAfter generates it to the output path first.
+const EarlierConfig = "meta:\n  pkg: earlier\nparameters:\n  earlier: 1\n"
+
+// DoAfter is Do for an output path that already holds what the same tool generated a moment ago for another (valid) configuration:
+// the inputs of the run that counts are written before, so the file at -o is newer than all of them. Nothing the tool documents makes
+// the result of a run depend on that file. earlierOK reports whether the first run produced the file.
+func DoAfter(w *work.WS, bin string, env []string, cwd string, outAbs string, args ...string) (r Run, earlierOK bool) {
+	d := filepath.Join(filepath.Dir(outAbs), ".earlier-input")
+	_ = os.MkdirAll(d, 0o755)
+	_ = os.WriteFile(filepath.Join(d, "earlier.yaml"), []byte(EarlierConfig), 0o644)
+	first := []string{"build", "-i", "earlier.yaml", "-o", outAbs}
+	for _, a := range args {
+		if a == "--stub" {
+			first = append(first, a)
+		}
+	}
+	e := Do(w, bin, env, d, outAbs, first...)
+	return Do(w, bin, env, cwd, outAbs, args...), e.Res.Exit == 0
 }
 
 // Contract checks the part of C10 that holds for every run regardless of input; it
